@@ -109,3 +109,81 @@ def verdict(spec: LayerSpec, nodes, L, usable=lambda p: True):
     if v == "should_not" and exc:
         return L.Not(other)
     raise ValueError(spec)
+
+
+# ---------------------------------------------------------------------------------------------------
+# layer-rule violation messages (C03 clauses applied to layer rules)
+
+_LDEP = re.compile(r'^"(?P<a>[^"]*)" \((?P<ta>layer "[^"]*"|no layer)\) (?P<verb>imports|is imported by) "(?P<b>[^"]*)" \((?P<tb>layer "[^"]*"|no layer)\)\.$')
+_LMISS = re.compile(r'^Layer "(?P<s>[^"]*)" (?P<verb>does not import|is not imported by) (?P<any>any layer that is not )?(?P<objs>layer "[^"]*"(?:, layer "[^"]*")*)\.$')
+
+
+def parse_layer_line(line: str):
+    m = _LDEP.match(line)
+    if m:
+        return ("dep", m.group("verb"), m.group("a"), m.group("ta"), m.group("b"), m.group("tb"))
+    m = _LMISS.match(line)
+    if m:
+        objs = tuple(sorted(re.findall(r'layer "([^"]*)"', m.group("objs"))))
+        return ("lmissing", "access" if m.group("verb") == "does not import" else "accessed", m.group("s"), bool(m.group("any")), objs)
+    return ("unparsed", line)
+
+
+def layer_records_of(lines) -> frozenset:
+    return frozenset(parse_layer_line(ln) for ln in lines)
+
+
+def expected_layer_records(spec: LayerSpec, nodes, L, usable=lambda p: True) -> dict:
+    """record -> formula 'must appear' (given that the rule fails); anything not in the dict must never appear."""
+    import itertools
+
+    mem = layer_members(spec, nodes)
+    S = mem[spec.subject]
+    objs = [spec.subject] if spec.anything else list(spec.objects)
+    exc = True if spec.anything else spec.exc
+    Os = [mem[o] for o in objs]
+    union_o = set().union(*map(set, Os)) if Os else set()
+    outs = [b for b in nodes if b not in set(S) and b not in union_o]
+
+    def tag(x):
+        for name, members in mem.items():
+            if x in members:
+                return f'layer "{name}"'
+        return "no layer"
+
+    def pair(a, b):
+        return (a, b) if spec.direction == "access" else (b, a)
+
+    depverb = "imports" if spec.direction == "access" else "is imported by"
+    v = spec.verb
+    forbid_edge = (v == "should_not" and not exc) or (v == "should_only" and exc)
+    forbid_other = (v == "should_only" and not exc) or (v == "should_not" and exc)
+    need_edge = v in ("should", "should_only") and not exc
+    need_other = v in ("should", "should_only") and exc
+    must: dict = {}
+
+    def add(r, f):
+        must[r] = L.Or([must[r], f]) if r in must else f
+
+    if forbid_edge:
+        for O in Os:
+            for a in S:
+                for b in O:
+                    if a != b and usable(pair(a, b)):
+                        add(("dep", depverb, a, tag(a), b, tag(b)), L.atom(*pair(a, b)))
+    if forbid_other:
+        for a in S:
+            for b in outs:
+                if usable(pair(a, b)):
+                    add(("dep", depverb, a, tag(a), b, tag(b)), L.atom(*pair(a, b)))
+    if need_edge:
+        lacks = [L.Not(L.Or(L.atom(*pair(a, b)) for a in S for b in O if a != b and usable(pair(a, b)))) for O in Os]
+        n = len(objs)
+        for k in range(1, n + 1):
+            for idx in itertools.combinations(range(n), k):
+                r = ("lmissing", spec.direction, spec.subject, False, tuple(sorted(objs[i] for i in idx)))
+                add(r, L.And([lacks[i] if i in idx else L.Not(lacks[i]) for i in range(n)]))
+    if need_other:
+        other = L.Or(L.atom(*pair(a, b)) for a in S for b in outs if usable(pair(a, b)))
+        add(("lmissing", spec.direction, spec.subject, True, tuple(sorted(objs))), L.Not(other))
+    return must
